@@ -21,6 +21,15 @@ the count; a seek the new position; `t`/`f`/`W` give `ok`; `x` gives `=<bytes>`;
 
 `free` is the number of free clusters of the volume once the files exist; the model's allocator fails exactly when
 that many clusters are in use.
+
+Model side: one `AFile` per file, all sharing one `CounterAlloc`.  Each model file carries its own copy of the data
+region; `Props/C02.lean` (`file_frame`, `two_files_refinement`) proves that this is what a shared data region with
+disjoint chains amounts to.
+
+Oracle (`ByteFile.check` per file, on the IMPLEMENTATION's results only): signatures `C02 read-wrong-bytes`,
+`C02 read-too-long`, `C02 read-short-rule` (a single read neither stopped at the cluster boundary/EOF nor filled the
+buffer), `C02 write-count`, `C02 seek-result`, `C02 truncate-content` (content read back after a truncate differs
+from `take pos`), `C02 panic`, `C02 result-shape`.
 -/
 namespace FatVerif.CursorDriver
 open FatVerif.Util FatVerif.Cursor
@@ -87,8 +96,6 @@ def isPanic : FileRes → Bool
   | _ => false
 
 /-! ### the model side -/
-
-def setAt {α : Type} (l : List α) (i : Nat) (v : α) : List α := l.set i v
 
 /-- run a history of `(file index, op)` on `k` model files sharing one allocator; stops after a panic -/
 def runModel : List (Nat × FileOp) → List AFile → CounterAlloc → List String → List String
@@ -215,8 +222,6 @@ def oracle (fn : String) (args : List String) (implOut : List String) : Option S
         ((List.range ln.files).map fun _ => { b := { content := [], pos := 0 }, truncated := false }) 0
     | _, _ => some "C02 result-shape unparsable-line"
   else none
-
-def hasOp (ops : List (Nat × FileOp)) (p : FileOp → Bool) : Bool := ops.any fun o => p o.2
 
 def branch (fn : String) (args : List String) : String :=
   match parseLine fn args with
